@@ -114,3 +114,37 @@ op("H2-isinstance-float", "C18", "H2", "parser.py", ("isinstance(value, (int, fl
 op("V1-new-loads-class", "C19", "V1", "new.py", ("            group_class=PVLGroupNew,\n            object_class=PVLObjectNew,\n            **kwargs\n        )\n    elif not isinstance(parser, PVLParser):", "            object_class=PVLObjectNew,\n            **kwargs\n        )\n    elif not isinstance(parser, PVLParser):"))
 op("TB9-format-encoder", "C20", "TB9", "pvl_translate.py", ("ODL=PVLWriter(ODLEncoder())", "ODL=PVLWriter(PDSLabelEncoder())"))
 op("L1-loads-flag", "C20", "L1", "pvl_validate.py", ("            logging.error(f\"{dialect} encode error {filename} {err}\")\n            encodes = False", "            logging.error(f\"{dialect} encode error {filename} {err}\")\n            loads = False"))
+
+# ---------------------------------------------------------------- rules added after round 3
+op("PAIR-wrong-row", "C05", "PAIR", "parser.py",
+   ("            != self.grammar.aggregation_keywords[truecase_begin].casefold()\n", "            != truecase_begin.casefold()\n"))
+op("PAIR-name-inverted", "C05", "PAIR", "parser.py",
+   ("        t = next(tokens)\n        if t != block_name:\n", "        t = next(tokens)\n        if t == block_name:\n"))
+op("PAIR-name-dropped", "C03", "PAIR", "parser.py",
+   ("        t = next(tokens)\n        if t != block_name:\n", "        t = next(tokens)\n        if False:\n"))
+op("TOKEN-INIT-decoder-wins", "C04", "TOKEN-INIT", "token.py",
+   ("        if grammar is None:\n            if decoder is not None:\n", "        if grammar is None or decoder is not None:\n            if decoder is not None:\n"))
+op("WSC-LANG-any-closer", "C05", "WSC-LANG", "token.py",
+   ("            if self.startswith(pair[0]) and self.endswith(pair[1]):\n                return True\n        return False\n\n    def is_quote",
+    "            if self.startswith(pair[0]):\n                return True\n        return False\n\n    def is_quote"))
+op("HOOK-TAIL-no-delimiter", "C08", "HOOK-TAIL", "parser.py",
+   ("                        value = self.parse_value(tokens)\n                        self.parse_statement_delimiter(tokens)\n",
+    "                        value = self.parse_value(tokens)\n"))
+op("F3-seek-zero", "C09", "F3", "__init__.py",
+   ("                path.seek(position)", "                path.seek(0)"))
+op("P3-cached-view", "C11", "P3", "collections.py",
+   ("    def items(self):\n        return ItemsView(self)\n", "    def items(self):\n        self._view = ItemsView(self)\n        return self._view\n"))
+op("H3-quantityerror-valueerror", "C18", "H3", "exceptions.py",
+   ("class QuantityError(Exception):", "class QuantityError(ValueError):"))
+op("AGG-swapped", "C03", "AGG", "parser.py",
+   ("            if begin_fold == gk.casefold():\n                return self.grpcls()\n", "            if begin_fold == gk.casefold():\n                return self.objcls()\n"))
+op("PDS-return-before-zone-test", "C14", "PDS", "encoder.py",
+   ("        elif value.second:\n            s += f\":{value:%S}\"\n\n        if (\n            value.tzinfo is None or",
+    "        elif value.second:\n            s += f\":{value:%S}\"\n\n        if not self.time_trailing_z:\n            return s\n\n        if (\n            value.tzinfo is None or"))
+op("L1-results-hoisted", "C20", "L1", "pvl_validate.py",
+   ("    results_list = list()\n    for f in args.file:\n        pvl_text = pvl.get_text_from(f)\n\n        results = dict()\n",
+    "    results_list = list()\n    results = dict()\n    for f in args.file:\n        pvl_text = pvl.get_text_from(f)\n"))
+op("LEX1-written-exponent", "C01", "LEX1", "lexer.py",
+   ("char.lower() == \"e\"", "char == \"e\""))
+op("WSC-LANG-iswsc-drops-comment", "C04", "WSC-LANG", "token.py",
+   ("        if self.is_comment():\n            return True\n\n        if self.is_space():", "        if self.is_space():"))
